@@ -3,6 +3,7 @@
 import ast
 
 from .. import tables
+from ..canon import single_assignments
 from ..pat import find_expr, find_stmt, match_expr, match_stmt
 from ..pm import src
 from ..q import FA, attr_stores, call_name, guard_facts, ifs_on, is_self_attr, walk_no_nested
@@ -122,8 +123,8 @@ def run(ctx):
     b = find_stmt("$$new = $$i + arange(len($$i))", ad.node)
     if b and idx:
         ctx.ob("R-LIN", "C04.3", ad, "the remapping uses the same searchsorted positions that were used for the insertion", src(b[0][1]["i"]) == src(idx[0][1]["i"]), "")
-    merged = find_stmt("$$k = searchsorted(self.live_points_indices, $$new)", ad.node)
-    okmerge = len(merged) == 1 and len(find_stmt("self.live_points_indices = insert(self.live_points_indices, $$k, $$new)", ad.node)) == 1 and len(find_stmt("if self.live_points_indices is None:\n    self.live_points_indices = $$new\nelse:\n    $_a\n    $_b\n    $_c", ad.node)) >= 0
+    inl_ad = single_assignments(ad.node)
+    okmerge = len([1 for n_, b_ in find_stmt("self.live_points_indices = $v", ad.node) if match_expr("insert(self.live_points_indices, searchsorted(self.live_points_indices, $new), $new)", b_["v"], inline=inl_ad) is not None]) == 1
     ctx.ob("R-LIN", "C04.3", ad, "new positions are merged into the live index set at searchsorted positions (keeps it increasing), or become the live set when there was none", okmerge and len(find_stmt("self.live_points_indices = $$new", soft[0] if False else ad.node)) >= 1, "")
     chk = [n for n in walk_no_nested(ad.node) if isinstance(n, ast.If) and "len(" in src(n.test) and "self.samples.size - samples.size" in src(n.test) and any(isinstance(x, ast.Raise) for x in n.body)]
     ctx.ob("R-ORDER", "C04.3", ad, "the remapped index array is checked to have exactly (new size - batch size) entries before it is used", len(chk) == 1, "")
@@ -131,7 +132,7 @@ def run(ctx):
     okg = len(find_stmt("$$v = arange(n, dtype=int)", gi.node)) == 1 and len(find_stmt("return $$v[~isin($$v, indices)]", gi.node)) == 1 and any(isinstance(x, ast.Raise) for x in walk_no_nested(gi.node))
     ctx.ob("R-SIB", "C04.3", gi, "get_inverse_indices returns arange(n) without the given indices (ascending), rejecting out-of-range input", okg, "")
     an = m["add_to_nested_samples"]
-    okan = len(find_stmt("$$k = searchsorted(self.nested_samples_indices, indices)", an.node)) == 1 and len(find_stmt("self.nested_samples_indices = insert(self.nested_samples_indices, $$k, indices)", an.node)) == 1
+    okan = len([1 for n_, b_ in find_stmt("self.nested_samples_indices = $v", an.node) if match_expr("insert(self.nested_samples_indices, searchsorted(self.nested_samples_indices, indices), indices)", b_["v"], inline=single_assignments(an.node)) is not None]) == 1
     ctx.ob("R-LIN", "C04.3", an, "moving indices to the discarded set is a sorted merge (searchsorted + insert)", okan, "")
     growers = [f.name for f, n, kind in attr_stores(prog, "nested_samples_indices", [c]) if kind == "assign"]
     ctx.ob("R-WRITERS", "C04.3", OS_, "the discarded index set is assigned only by the constructor, add_samples (remap / strict split) and add_to_nested_samples (merge)", set(growers) <= {"__init__", "add_samples", "add_to_nested_samples"}, f"{sorted(set(growers))}")
